@@ -47,7 +47,9 @@ import (
 	"os"
 	"path/filepath"
 	"sort"
+	"strings"
 	"testing"
+	"time"
 )
 
 var verifHarnesses = map[string]func(){
@@ -63,6 +65,17 @@ type verifOutcome struct {
 	Failed []string ` + "`json:\"failed\"`" + `
 	Panic  string   ` + "`json:\"panic\"`" + `
 	Covers []string ` + "`json:\"covers\"`" + `
+}
+
+func verifRunOneTimed(path string) verifOutcome {
+	done := make(chan verifOutcome, 1)
+	go func() { done <- verifRunOne(path) }()
+	select {
+	case o := <-done:
+		return o
+	case <-time.After(5 * time.Second):
+		return verifOutcome{File: path, Status: "timeout", Panic: "harness did not finish within 5s"}
+	}
 }
 
 func verifRunOne(path string) (out verifOutcome) {
@@ -105,8 +118,16 @@ func TestVerifReplay(t *testing.T) {
 	dir := os.Getenv("VERIF_REPLAY_DIR")
 	files, _ := filepath.Glob(filepath.Join(dir, "*.json"))
 	sort.Strings(files)
+	skip := map[string]bool{}
+	for _, s := range strings.Split(os.Getenv("VERIF_REPLAY_SKIP"), ",") {
+		skip[s] = true
+	}
 	for _, p := range files {
-		o := verifRunOne(p)
+		if skip[filepath.Base(p)] {
+			continue
+		}
+		fmt.Printf("VERIF-REPLAY-START %s\n", filepath.Base(p))
+		o := verifRunOneTimed(p)
 		b, _ := json.Marshal(o)
 		fmt.Printf("VERIF-REPLAY %s\n", b)
 	}
@@ -148,27 +169,46 @@ func NativeReplay(repo, verifDir, pkgDir, pkgName string, harnessFiles map[strin
 	if err := os.WriteFile(ovPath, ov, 0o644); err != nil {
 		return nil, "", err
 	}
-	cmd := exec.Command("go", "test", "-v", "-vet=off", "-count=1", "-overlay", ovPath, "-run", "^TestVerifReplay$", "-timeout", fmt.Sprintf("%ds", int(timeout.Seconds())), "./"+pkgDir)
-	cmd.Dir = repo
-	cmd.Env = append(os.Environ(), "GOFLAGS=-mod=mod", "GOPROXY=off", "VERIF_REPLAY_DIR="+dir)
-	var out bytes.Buffer
-	cmd.Stdout = &out
-	cmd.Stderr = &out
-	runErr := cmd.Run()
 	res := map[string]ReplayResult{}
-	sc := bufio.NewScanner(bytes.NewReader(out.Bytes()))
-	sc.Buffer(make([]byte, 1<<20), 1<<26)
-	for sc.Scan() {
-		line := sc.Text()
-		if k := strings.Index(line, "VERIF-REPLAY "); k >= 0 {
-			var r ReplayResult
-			if json.Unmarshal([]byte(line[k+13:]), &r) == nil {
-				res[filepath.Base(r.File)] = r
+	var allOut bytes.Buffer
+	var skip []string
+	for round := 0; round < 12; round++ {
+		cmd := exec.Command("go", "test", "-v", "-vet=off", "-count=1", "-overlay", ovPath, "-run", "^TestVerifReplay$", "-timeout", fmt.Sprintf("%ds", int(timeout.Seconds())), "./"+pkgDir)
+		cmd.Dir = repo
+		cmd.Env = append(os.Environ(), "GOFLAGS=-mod=mod", "GOPROXY=off", "VERIF_REPLAY_DIR="+dir, "VERIF_REPLAY_SKIP="+strings.Join(skip, ","))
+		var out bytes.Buffer
+		cmd.Stdout = &out
+		cmd.Stderr = &out
+		runErr := cmd.Run()
+		allOut.Write(out.Bytes())
+		started := ""
+		sc := bufio.NewScanner(bytes.NewReader(out.Bytes()))
+		sc.Buffer(make([]byte, 1<<20), 1<<26)
+		for sc.Scan() {
+			line := sc.Text()
+			if k := strings.Index(line, "VERIF-REPLAY-START "); k >= 0 {
+				started = strings.TrimSpace(line[k+19:])
+				continue
+			}
+			if k := strings.Index(line, "VERIF-REPLAY "); k >= 0 {
+				var r ReplayResult
+				if json.Unmarshal([]byte(line[k+13:]), &r) == nil {
+					res[filepath.Base(r.File)] = r
+					skip = append(skip, filepath.Base(r.File))
+					started = ""
+				}
 			}
 		}
+		if started == "" {
+			if len(res) == 0 && runErr != nil {
+				return res, allOut.String(), fmt.Errorf("native replay failed: %v", runErr)
+			}
+			break
+		}
+		// the test process died while replaying `started` (uncaught panic in a goroutine, fatal error)
+		res[started] = ReplayResult{File: started, Status: "crashed", Panic: tail(out.String(), 600)}
+		skip = append(skip, started)
 	}
-	if len(res) == 0 && runErr != nil {
-		return res, out.String(), fmt.Errorf("native replay failed: %v", runErr)
-	}
+	out := &allOut
 	return res, out.String(), nil
 }
